@@ -48,6 +48,7 @@ type litFail struct {
 	Class   string `json:"class"`
 	Dev     string `json:"dev"`   // accepts-specified-reject | rejects-specified-accept | wrong-value | internal
 	Why     string `json:"why"`   // the specification's reason (ok | syntax | scale | range...)
+	Shape   string `json:"shape"` // negative-zero | plain
 	Base    int    `json:"base"`
 	Engine  string `json:"engine"`
 	Literal string `json:"literal"`
@@ -103,6 +104,7 @@ func literalsMain(args []string) {
 		valid bool
 		cps   []int
 		asCh  bool
+		why   string
 	}
 	var strs []strCase
 	rows := 0
@@ -261,7 +263,11 @@ func literalsMain(args []string) {
 						sb.WriteString("\\u{" + h + "}")
 					}
 				}
-				strs = append(strs, strCase{src: sb.String(), valid: valid, cps: cps, asCh: asCh})
+				var why string
+				if len(p) >= 6 {
+					_ = json.Unmarshal(p[5], &why)
+				}
+				strs = append(strs, strCase{src: sb.String(), valid: valid, cps: cps, asCh: asCh, why: why})
 			default:
 				harness("unknown row tag " + tag)
 			}
@@ -286,7 +292,10 @@ func literalsMain(args []string) {
 			errs, internal := checkProgram(code)
 			accepted[i] = errs == ""
 			t := numTypeByName(c.ty)
-			f := litFail{Kind: c.kind, Ty: c.ty, Class: t.class(), Why: c.why, Base: c.base, Engine: "checker", Literal: c.text}
+			f := litFail{Kind: c.kind, Ty: c.ty, Class: t.class(), Why: c.why, Base: c.base, Engine: "checker", Literal: c.text, Shape: "plain"}
+			if strings.HasPrefix(c.text, "-") && c.want != nil && c.want.Sign() == 0 {
+				f.Shape = "negative-zero"
+			}
 			switch {
 			case internal:
 				f.Dev, f.Msg = "internal", errs
@@ -413,7 +422,7 @@ func literalsMain(args []string) {
 				nontrivial++
 			}
 		}
-		f := litFail{Kind: kind, Ty: ty, Engine: "checker", Literal: sc.src}
+		f := litFail{Kind: kind, Ty: ty, Engine: "checker", Literal: sc.src, Why: sc.why}
 		switch {
 		case internal:
 			f.Dev, f.Msg = "internal", errs
